@@ -87,6 +87,7 @@ func NewDeque[T any](opts DequeOptions) (*Deque[T], error) {
 
 	q := makeDeque[T]()
 	q.tracker = tracker
+	verifGuardOwner(tracker, q.mtx)
 
 	return q, nil
 }
@@ -220,6 +221,7 @@ func (dq *Deque[T]) WaitPushBack(ctx context.Context, it T) error {
 }
 
 func (dq *Deque[T]) waitPushAfter(ctx context.Context, it T, afterGetter func() *element[T]) error {
+	verifGuard("pubsub.Deque.waitPushAfter", dq.mtx)
 	if dq.tracker.cap() > dq.tracker.len() {
 		if dq.tracker.len() == 0 {
 			defer dq.updates.Signal()
@@ -309,6 +311,7 @@ func (dq *Deque[T]) ProducerReverseBlocking() fun.Producer[T] {
 func (dq *Deque[T]) confProducer(direction dqDirection, blocking bool) fun.Producer[T] {
 	var current *element[T]
 	return func(ctx context.Context) (out T, _ error) {
+		verifGuard("pubsub.Deque.confProducer", dq.mtx)
 		if current == nil {
 			current = dq.root
 		}
@@ -352,6 +355,7 @@ func (dq *Deque[T]) DistributorNonBlocking() Distributor[T] {
 }
 
 func (dq *Deque[T]) addAfter(value T, after *element[T]) error {
+	verifGuard("pubsub.Deque.addAfter", dq.mtx)
 	if dq.closed {
 		return ErrQueueClosed
 	}
@@ -386,6 +390,7 @@ func (dq *Deque[T]) addAfter(value T, after *element[T]) error {
 // because the interface to giving callers access to elements wouldn't
 // be ergonomic.
 func (dq *Deque[T]) pop(it *element[T]) (out T, _ bool) {
+	verifGuard("pubsub.Deque.pop", dq.mtx)
 	if dq.closed || it.isRoot() {
 		return out, false
 	}
@@ -412,6 +417,7 @@ func (dq *Deque[T]) pop(it *element[T]) (out T, _ bool) {
 }
 
 func (dq *Deque[T]) waitPop(ctx context.Context, direction dqDirection) (out T, _ error) {
+	verifGuard("pubsub.Deque.waitPop", dq.mtx)
 	for {
 		it, ok := dq.pop(dq.root.getNextOrPrevious(direction))
 		if ok {
@@ -452,6 +458,7 @@ func (it *element[T]) getNextOrPrevious(direction dqDirection) *element[T] {
 
 // callers must hold the *list's* lock
 func (it *element[T]) wait(ctx context.Context, direction dqDirection) error {
+	verifGuard("pubsub.Deque.element.wait", it.list.mtx)
 	var cond *sync.Cond
 
 	// use the cond var for the head or tail if we're waiting for
